@@ -474,7 +474,17 @@ def run_h2(case):
         cmd.connection.alpn = b"h2"
         return "connect failed" if case.get("connfail") else None
 
+    global _REC
     w = PreciseWorld(lhttp.HttpLayer(ctx, HTTPMode.regular), ctx, on_hook=on_hook, on_connect=on_connect)
+    rec = Recorder(HTTPMode.regular, ctx.options)
+    _REC = rec
+    try:
+        return _run_h2_body(w, ctx, case, state, act, rec, flows, flow_hooks)
+    finally:
+        _REC = None
+
+
+def _run_h2_body(w, ctx, case, state, act, rec, flows, flow_hooks):
     w.start()
     pair = H2Pair(w)
     for st in case["steps"]:
@@ -493,7 +503,7 @@ def run_h2(case):
             h = w.deferred_hooks[0]; act(h); w.resume(h)
         elif any(c is not ctx.client for c in w.transports): w.close_all_servers()
         else: break
-    return w, [(f, flow_hooks[id(f)]) for f in flows]
+    return w, rec, [(f, flow_hooks[id(f)]) for f in flows]
 
 
 H2_SKELETONS = [
@@ -641,14 +651,15 @@ class Check(PropertyCheck):
                   "protocol errors after one; response events only once the request went upstream; completions only for "
                   "the pending command) can deliver stays inside the grammar, including queue replay and queues left "
                   "behind by exceptions, so the six `_http1` theorems need no hypothesis besides admissibility; every real "
-                  "per-stream event sequence is checked to be admissible (adm=1).  HTTP/2 client/server exchanges "
-                  "(multiplexed streams, trailers, resets, early responses) run through the direct oracle only.")
+                  "per-stream event sequence is checked to be admissible (adm=1).  HTTP/2: the stream model and the emitter "
+                  "carry RequestTrailers/ResponseTrailers, so HTTP/2 histories (multiplexed streams, trailers, resets, early "
+                  "responses) are admissible histories too: the six `_http2` theorems hold without a grammar hypothesis, and "
+                  "HTTP/2 client/server runs are tied to the model per stream exactly like HTTP/1 (outputs, final state, "
+                  "adm=1, settled).")
     level_note = ("trusted: Lean kernel; hand-written model (validated differentially, ~0 mismatches on >10^5 scripts); the "
                   "emitter model of Http1Server/Http1Client/HttpLayer is itself a hand-written abstraction, tied by checking "
                   "that every real per-stream event sequence is one it can produce (not by a proof about those classes); "
-                  "model tie for HTTP/1 only — HTTP/2 pairs (incl. trailers) are judged by the six oracle predicates on the "
-                  "hook trace, without model tie, and HTTP/2 histories are covered by the theorems only under the general "
-                  "bad=false hypothesis; options websocket/rawtcp at their defaults; regular mode; runs in which an "
+                  "HTTP/1 and HTTP/2 are tied (HTTP/3 shares HttpStream and the emitter but is not run); options websocket/rawtcp at their defaults; regular mode; runs in which an "
                   "exception raised OUTSIDE HttpStream (Http1Server/HttpLayer/server assertions) abandons a suspended "
                   "stream generator are judged by the direct oracle only, not compared with the model.")
     technique = ("Lean 4 proof (inductive invariant over all input histories of the HttpStream model + trace monitor) "
@@ -659,11 +670,11 @@ class Check(PropertyCheck):
             "options × addon policy per hook and flow (pass/kill/set response/enable streaming, each optionally "
             "intercepted and resumed at a later step or after everything closed) × immediate/deferred connects; plus "
             "7 HTTP/2 client/server skeletons (multiplexed streams, split bodies, trailers, early response) × stream "
-            "reset / connection close / connect failure at every step × the same policies (oracle only). "
+            "reset / connection close / connect failure at every step × the same policies (oracle + model tie). "
             "distinct = distinct (script, policy, defer, connect, options); non-trivial = at least one flow fired "
             "requestheaders.")
     budget = {"quick": 9000, "thorough": 400000}
-    time_budget = {"quick": 25, "thorough": 540}
+    time_budget = {"quick": 14, "thorough": 540}
     fingerprints = ["mitmproxy.proxy.layers.http:HttpStream._handle_event",
                     "mitmproxy.proxy.layers.http:HttpStream.state_wait_for_request_headers",
                     "mitmproxy.proxy.layers.http:HttpStream.start_request_stream",
@@ -702,6 +713,10 @@ class Check(PropertyCheck):
                    "protocol errors after a protocol error), response events only after the request headers went upstream"]
     parallel = True
     has_model = True
+
+    def setup(self, tier):
+        # the quick tier is faster serially (the observations with their per-stream logs are expensive to pickle)
+        self.parallel = tier == "thorough"
 
     # ---- generation ---------------------------------------------------------------------------
     @staticmethod
@@ -808,12 +823,20 @@ class Check(PropertyCheck):
         return out
 
     def _impl_h2(self, case):
-        w, flows = run_h2(case)
+        w, rec, flows = run_h2(case)
         out = {"flows": [], "streams": [], "crashes": [e[0] for e in w.errors], "open": len(w.transports),
                "pending": len(w.deferred_hooks), "h2": True}
         for f, names in flows:
             out["flows"].append({"hooks": names, "live": bool(f.live), "connect": f.request.method == "CONNECT",
                                  "upgraded": bool(f.websocket), "req_streamed": bool(f.request.stream)})
+        for s in rec.streams:
+            out["streams"].append({"id": s.stream_id, "log": [[e["in"], e["out"], int(e["pt"])] for e in rec.logs[id(s)]],
+                                   "cs": s.client_state.__name__[6:], "ss": s.server_state.__name__[6:],
+                                   "live": bool(getattr(getattr(s, "flow", None), "live", False)),
+                                   "pt": s._handle_event == s.passthrough,
+                                   "connect": bool(getattr(s, "flow", None) and s.flow.request.method == "CONNECT"),
+                                   "websocket": bool(getattr(s, "flow", None) and s.flow.websocket),
+                                   "streamed_up": bool(getattr(s, "_v_streamed", False))})
         self._last_obs = (case, out)
         return out
 
@@ -874,7 +897,6 @@ class Check(PropertyCheck):
 
     # ---- model tie: every real HttpStream's input sequence is replayed through the Lean model -----------------
     def model_lines(self, case):
-        if case.get("h2"): return None          # HTTP/2 exchanges: direct oracle only
         obs = getattr(self, "_last_obs", None)
         if obs is None or obs[0] is not case:
             obs = (case, self.impl(case))
@@ -890,7 +912,7 @@ class Check(PropertyCheck):
             lines.append(f"reset {o.get('limit', 0)} {o.get('stream', 0)}")
             for inp, out, pt in st["log"]:
                 if inp == "start" or pt: continue
-                if inp.startswith("other:") or inp in ("rt", "st"): raise Skip("input outside the model")
+                if inp.startswith("other:"): raise Skip("input outside the model")
                 lines.append(inp)
             lines.append("end")
         return lines
